@@ -33,7 +33,7 @@ def vbits(v):
     return show_vec([f32bits(x) for x in v])
 
 
-def gen_case(rng, pokes=True, n_ops=40, strat=None, force_cfg=None):
+def gen_case(rng, pokes=True, n_ops=40, strat=None, force_cfg=None, filters=False):
     strat = strat or rng.choice(STRATS)
     cap = rng.choice([1, 2, 5])
     hard = rng.choice([1, 2, 4])
@@ -52,6 +52,8 @@ def gen_case(rng, pokes=True, n_ops=40, strat=None, force_cfg=None):
          ("exists", 3), ("bulk_query", 6), ("train", 2)]
     if pokes:
         w += [("poke_cache", 5), ("poke_hot", 5)]
+    if filters:
+        w += [("delete_by_filter", 9)]
     names = [n for n, _ in w]
     weights = [x for _, x in w]
     for _ in range(n_ops):
@@ -88,6 +90,10 @@ def gen_case(rng, pokes=True, n_ops=40, strat=None, force_cfg=None):
                 show_vec([rng.choice(ids + [99]) for _ in range(k)]), rng.randrange(2)))
         elif op == "train":
             ops.append("train ids=%s" % show_vec([rng.choice(ids) for _ in range(rng.choice([3, 8, 20]))]))
+        elif op == "delete_by_filter":
+            from . import store
+            ops.append("delete_by_filter f=%s" % ",".join(
+                store.rand_filter(rng, VALS + ["10", "-1", "1.0"], rng.randrange(3))))
         elif op == "poke_cache":
             kind = rng.choice(["old_ver", "wrong_payload", "foreign", "exact"])
             alt = vbits(rand_vec(rng, dim))
@@ -146,16 +152,31 @@ def oracle(raw_ops, ann, res):
     strat = cf["strat"]
     metric = cf.get("metric", "l2")
     exp = {}            # id -> (vec string, meta dict hex)
+    filt_marks = []
     poked_hot = {}      # id -> (vec, meta) for plants the engine may later "repair" from
     hot_keys = []
     poke_hot_seen = False
     last_write_op = None
+    nums = {}
     for i, (a, r) in enumerate(zip(ann, res)):
         op, f = fields(a)
+        if "nums" in f and f["nums"] != "-":
+            for p in f["nums"].split(";"):
+                h, b = p.split(":")
+                nums.setdefault(h, int(b))
         if r.startswith("panic"):
             fails.append(("panic", i, r))
             continue
-        if op == "insert":
+        if op == "delete_by_filter":
+            toks = f["f"].split(",")
+            victims = [k for k, (v, m) in exp.items() if match_filter(list(toks), m, nums)]
+            if r.isdigit() and not poke_hot_seen and int(r) != len(victims):
+                fails.append(("c11-engine", i, "filtered delete reports %s deleted, %d live documents match" % (r, len(victims))))
+            pre = dict(exp)
+            for k in victims:
+                exp.pop(k, None); poked_hot.pop(k, None)
+            filt_marks.append((i, set(pre) - set(victims)))
+        elif op == "insert":
             id_ = int(f["id"])
             # hard-limit drain may repair planted mirror-only entries first
             if len(hot_keys) >= hard and r != "drain_failed":
@@ -269,7 +290,8 @@ def oracle(raw_ops, ann, res):
                 got[int(j)] = (v, m)
             want = {k: (v, canon_meta(m)) for k, (v, m) in exp.items()}
             if got != want:
-                fails.append(("c04", i, "final census differs from the fold of the write log: %s vs %s" % (got, want)))
+                kind = "c11-engine" if filt_marks else "c04"
+                fails.append((kind, i, "final census differs from the fold of the write log: %s vs %s" % (got, want)))
     return fails
 
 
@@ -305,3 +327,47 @@ def _stored_matches(raw, stored, metric):
         if abs(x / n - y) > 0.011 * max(1.0, abs(y)):   # the engine keeps inputs with norm² in [0.98,1.02]
             return False
     return True
+
+
+# ---------------------------------------------------------------------------------------------
+# reference semantics of metadata filters (python side of the C11 engine-level oracle)
+
+def _f64(bits):
+    import struct
+    return struct.unpack("<d", struct.pack("<Q", bits))[0]
+
+
+def match_filter(toks, meta, nums):
+    """toks: Polish token list (consumed); meta: {hexkey: hexval}; nums: {hexstr: f64 bits}"""
+    t = toks.pop(0)
+    if t == "none":
+        return True
+    if t == "exact":
+        k, v = toks.pop(0), toks.pop(0)
+        return meta.get(k) == v
+    if t == "in":
+        k = toks.pop(0); n = int(toks.pop(0))
+        vs = [toks.pop(0) for _ in range(n)]
+        return k in meta and meta[k] in vs
+    if t == "range":
+        k = toks.pop(0); kind = toks.pop(0)
+        if kind == "nobound":
+            return k in meta
+        b = toks.pop(0)
+        if k not in meta:
+            return False
+        val = meta[k]
+        if val in nums and b in nums:
+            x, y = _f64(nums[val]), _f64(nums[b])
+            return {"ge": x >= y, "le": x <= y, "gt": x > y, "lt": x < y}[kind]
+        xb, yb = bytes.fromhex(val), bytes.fromhex(b)
+        return {"ge": xb >= yb, "le": xb <= yb, "gt": xb > yb, "lt": xb < yb}[kind]
+    if t in ("and", "or"):
+        n = int(toks.pop(0))
+        rs = [match_filter(toks, meta, nums) for _ in range(n)]
+        return all(rs) if t == "and" else any(rs)
+    if t == "not":
+        if toks.pop(0) == "0":
+            return False
+        return not match_filter(toks, meta, nums)
+    raise ValueError("bad filter token " + t)
